@@ -110,6 +110,9 @@ def _sym_task(pid, tier, seed, name, opts):
                 if r != "sat" and ob.kind != "concrete":
                     p["obligations"].append(dict(label=ob.label, kind=ob.kind, expect=ob.expect, core=ob.core, status="inconclusive", reason="no path sample (%s)" % r, time_s=0.0))
                     continue
+                if r != "sat" and ob.kind == "concrete" and not ob.goal:
+                    p["obligations"].append(dict(label=ob.label, kind=ob.kind, expect=ob.expect, core=ob.core, status="inconclusive", reason="failed per-path check on a path without sample (%s)" % r, time_s=0.0))
+                    continue
                 try:
                     d = dis.decide(pr, ob)
                 except portfolio.Disagreement as e:
